@@ -228,7 +228,7 @@ class VGen:
     def const_type(self, depth=2, allow_func=True):
         """A random constable, copyable type descriptor."""
         r = self.r
-        leaves = [["unit"], ["bool"], ["usum", 3], ["int", r.randint(0, 6)], ["float"], ["string"]]
+        leaves = [["unit"], ["bool"], ["usum", r.choice([3, 3, 4, 5, 9])], ["int", r.randint(0, 6)], ["float"], ["string"]]
         if depth <= 0:
             return r.choice(leaves)
         k = r.choice(["leaf", "leaf", "tuple", "option", "either", "sum", "array", "list", "sarray",
@@ -298,15 +298,27 @@ class VBuilder:
         if k == "sum":
             from hugr import tys
 
-            return val.Sum(v[1], tys.Sum([B.row(r) for r in v[2]]), [self.val(x) for x in v[3]])
+            rows = v[2]
+            typ = tys.Sum([B.row(r) for r in rows])
+            if len(repr(v)) % 2:
+                # the declared type handed over as the sugar object that denotes the same sum
+                if rows and all(not r for r in rows):
+                    typ = tys.UnitSum(len(rows))
+                elif len(rows) == 1:
+                    typ = tys.Tuple(*B.row(rows[0]))
+                elif len(rows) == 2 and not rows[0]:
+                    typ = tys.Option(*B.row(rows[1]))
+                elif len(rows) == 2:
+                    typ = tys.Either(B.row(rows[0]), B.row(rows[1]))
+            return val.Sum(v[1], typ, [self.val(x) for x in v[3]])
         if k == "unitsum":
             return val.UnitSum(v[1], v[2])
         if k == "unit":
             return val.Unit
         if k == "true":
-            return val.TRUE
+            return val.bool_value(True) if self.one_shot else val.TRUE
         if k == "false":
-            return val.FALSE
+            return val.bool_value(False) if self.one_shot else val.FALSE
         if k == "tuple":
             return val.Tuple(*[self.val(x) for x in v[1]])
         if k == "some":
@@ -320,7 +332,8 @@ class VBuilder:
         if k == "int":
             from hugr.std.int import IntVal
 
-            return IntVal(v[2], v[1])
+            # (width 5 is the documented default of the constructor: left out every other time)
+            return IntVal(v[2]) if v[1] == 5 and v[2] % 2 == 0 else IntVal(v[2], v[1])
         if k == "float":
             from hugr.std.float import FloatVal
 
